@@ -99,8 +99,7 @@ func (dp *DataProcessor) processItem(data map[string]any) {
 			dp.stream.log.Error("join enrichment error: %v", jerr)
 		}
 		if keep && (dp.stream.filter == nil || dp.stream.filter.Evaluate(dataMap)) {
-			dp.stream.injectGroupKeyExprs(dataMap)
-			dp.stream.Window.Add(dataMap)
+			dp.stream.Window.Add(dp.stream.injectGroupKeyExprs(dataMap))
 		}
 	default:
 		// Direct mode: processDirectData does enrich(if JOIN) ->
@@ -632,7 +631,7 @@ func (dp *DataProcessor) processDirectData(data map[string]any) {
 	if !keep {
 		return
 	}
-	analyticResults, pass := dp.stream.applyWhereAndAnalytic(dataMap)
+	dataMap, analyticResults, pass := dp.stream.applyWhereAndAnalytic(dataMap)
 	if !pass {
 		return
 	}
